@@ -52,6 +52,7 @@ def check(ctx):
     ctx.run(reportfs.check_report_owns)
     ctx.run(reportfs.check_fig_all)
     ctx.run(reportfs.check_header_depth)
+    ctx.run(reportfs.check_clear_complete)
     ctx.run(extcmd.check_sanitize, scope=('report-root',), floor=1)
     ctx.run(extcmd.check_sanitizer_body)
 
